@@ -7,7 +7,8 @@ open Conv
 
 let hx = hex_of_bytes
 let bytes_of_string (s : string) : n list = List.init (String.length s) (fun i -> n_of_int (Char.code s.[i]))
-let string_of_bytes (l : n list) : string = String.init (List.length l) (fun i -> Char.chr (int_of_n (List.nth l i)))
+let string_of_bytes (l : n list) : string =
+  let b = Buffer.create 64 in List.iter (fun c -> Buffer.add_char b (Char.chr (int_of_n c))) l; Buffer.contents b
 
 let toks = ref []
 let next () = match !toks with [] -> failwith "short line" | t :: r -> toks := r; t
@@ -37,6 +38,7 @@ let spec_of_text (t : string) : mod_spec =
       end
 
 let chain_of_text (t : string) : mod_spec list =
+  if t = "" then [] else
   match String.split_on_char '|' t with
   | [] -> []
   | l -> List.map spec_of_text l
@@ -53,7 +55,7 @@ let conn_of = function
   | "ok" -> ConnOk | "refused" -> ConnRefused | "reset" -> ConnReset | "timeout" -> ConnTimeout | "eof" -> ConnEof | _ -> ConnProto
 
 let expand_body (f : string) : n list =
-  if String.length f > 0 && f.[0] = '@' then List.init (int_of_string (String.sub f 1 (String.length f - 1))) (fun _ -> n_of_int 120)
+  if String.length f > 0 && f.[0] = '@' then (let x = n_of_int 120 in List.init (int_of_string (String.sub f 1 (String.length f - 1))) (fun _ -> x))
   else bytes_of_hex f
 
 let size_op_of = function
@@ -133,9 +135,12 @@ let predict (c : string) (obs : string) : string * string * bool =
         let conn = conn_of (next ()) in
         let status = z_of_int (num ()) in
         let bodyok = bool_of_field (next ()) in
-        let body = expand_body (next ()) in
+        let body_f = next () in
         let tok = strn () in
         let pp = next () in
+        let tmpl = next () in
+        (* the body bytes matter to the model only for assert/response *)
+        let body = if pp.[0] = 'a' then expand_body body_f else [] in
         pp_codes := !pp_codes @ [pp];
         let resp = { rs_conn = (if refused then ConnRefused else conn); rs_status = status; rs_body_ok = bodyok; rs_h2 = false } in
         let pps = (match String.split_on_char ':' pp with
@@ -146,7 +151,7 @@ let predict (c : string) (obs : string) : string * string * bool =
           | ["a"; st; pat] -> [ assert_process { as_body = [bytes_of_hex pat]; as_headers = []; as_status = z_of_int (int_of_string st); as_size = None }
                                   { rv_status = status; rv_header = (fun _ -> []); rv_body = body } ]
           | _ -> failwith "pp") in
-        { si_pre_ok = true; si_tmpl_ok = true; si_prep_ok = true; si_resp = resp; si_pps = pps }) in
+        { si_pre_ok = true; si_tmpl_ok = (tmpl <> "e"); si_prep_ok = (tmpl <> "u0"); si_resp = resp; si_pps = pps }) in
       let shots =
         if gun = "http" then
           List.map (fun s -> base_shoot { bc_bound = true; bc_connect = None; bc_http2 = false } false s.si_resp) steps
